@@ -394,6 +394,7 @@ Proof.
           intros Hc. exact Hc.
         - apply (get_upd_same s c (fun r0 => set_sent (c_sent r0 + j) r0) r); [intros r0 Hr0; exact Hr0 | exact Hg]. }
       destruct Hs1 as [Hi1 Hg1].
+      destruct (eo_stopfail (lookup no_eora ora c)); [exact Hi1|].
       apply inv_stop with (r := set_sent (c_sent r + j) r); [exact Hi1 | exact Hg1 | simpl; lia].
 Qed.
 
